@@ -12,6 +12,7 @@ import Proofs.Lemmas.BlakeTrace
 import Proofs.Lemmas.Blake2End
 import Proofs.Lemmas.BlakeEnd
 import Proofs.Lemmas.BlakeFull
+import Proofs.Lemmas.BlakeStream
 namespace Proofs.C11
 open Model Model.Gen Proofs.Lemmas Proofs.Lemmas.BlakeWords
 
@@ -167,6 +168,38 @@ theorem blake2_refines {c : Blake.Cfg} {V : Spec.Blake2.Variant} (h : Blake2End.
     (sp : Spec.Blake2.Params) (hv : sp.valid V) (M : List Nat) (hM : ∀ b ∈ M, b < 256) :
     Blake2.call c M (Blake2End.toModel sp) = .ok (Spec.Blake2.hash V sp M) :=
   Blake2End.blake2_call_eq h sp hv M hM
+
+/-- BLAKE2 THROUGH THE STREAMING INTERFACE: `initstate(**params); update(p1) … update(pk); update(final, padding=True)`
+    with whole-block pieces (any number, any number of blocks each, empty ones too) and a non-empty final piece returns
+    the RFC 7693 digest of p1‖…‖pk‖final for the parameters given to THAT `initstate` — the finalization flag is set on
+    the last block of the final piece only (`final_flag_iff_last`), and nothing but the configuration and the keyword
+    arguments enters `Blake2.initstate`, so neither an earlier call on the object nor an earlier stream does.  (The
+    empty final piece after data is the known finding of C14, outside this statement.) -/
+theorem blake2_streamed_refines {c : Blake.Cfg} {V : Spec.Blake2.Variant} (h : Blake2End.Pair c V)
+    (sp : Spec.Blake2.Params) (hv : sp.valid V) (pieces : List (List Nat))
+    (hal : ∀ p ∈ pieces, p.length % (c.blocksize / 8) = 0) (final : List Nat) (hf : final ≠ [])
+    (hM : ∀ b ∈ pieces.flatten ++ final, b < 256) :
+    (Blake2.initstate c (Blake2End.toModel sp)).bind
+        (fun s => (Blake2.update c (Blake2.feed c s pieces) final true).2)
+      = .ok (Spec.Blake2.hash V sp (pieces.flatten ++ final)) := by
+  have hc : c = Blake2.blake2b ∨ c = Blake2.blake2s := by
+    rcases h with ⟨rfl, _⟩ | ⟨rfl, _⟩
+    · exact Or.inl rfl
+    · exact Or.inr rfl
+  have hcall := blake2_refines h sp hv (pieces.flatten ++ final) hM
+  have hinit := blake2_init_refines h sp hv
+  simp only [Blake2.call, bind, hinit, Except.bind] at hcall ⊢
+  rw [(BlakeStream.blake2_feed c hc pieces hal final hf _ rfl).1]
+  exact hcall
+
+/-- non-vacuity: two whole-block pieces (one of two blocks) and a short final piece, BLAKE2s -/
+example : (∀ p ∈ [List.replicate 64 1, List.replicate 128 2], p.length % (Blake2.blake2s.blocksize / 8) = 0) ∧
+    ([3, 4, 5] : List Nat) ≠ [] := by
+  have h64 : Blake2.blake2s.blocksize / 8 = 64 := by decide
+  refine ⟨?_, by simp⟩
+  intro p hp
+  simp only [List.mem_cons, List.not_mem_nil, or_false] at hp
+  rcases hp with rfl | rfl <;> simp [h64]
 
 /-- BLAKE2: the returned digest has exactly the requested length -/
 theorem blake2_digest_length {c : Blake.Cfg} {V : Spec.Blake2.Variant} (h : Blake2End.Pair c V)
